@@ -5,7 +5,7 @@ import re
 from vlib import Machinery, write_ndjson, read_ndjson
 
 # universes of GraphCatalog.tla by size (number of certificates)
-SMALL = ["chain3", "dangling", "badsig", "selfx", "samesubj", "rootdang"]            # 3-4 certificates
+SMALL = ["chain3", "dangling", "badsig", "selfx", "samesubj", "rootdang", "nonca4"]            # 3-4 certificates
 FIVE = ["twin", "cross", "rollover", "selfx5", "samesubj5", "pathlen", "nonca", "cycle", "diamond"]
 FIVE_G = ["twin", "cross", "rollover", "selfx5"]   # the graph-relevant ones (quick tier of C10)
 SIX = ["cross6", "pathlen6"]
@@ -43,11 +43,23 @@ def judge(ctx, module, cfg, fname, recs, label=None, timeout=1800, subst=None):
         raise Machinery("judge %s: TLC did not report all %d observations as judged:\n%s" %
                         (module, len(recs), "\n".join(r.out.splitlines()[-20:])))
     rej = []
+    ctx.last_cover = None
+    ctx.last_open = 0
     for line in r.out.splitlines():
         if line.startswith('"{'):
             d = json.loads(json.loads(line))
-            if "i" in d and "why" in d:
+            if "i" in d and "verdict" in d:
+                if d["verdict"]:
+                    rej.append((int(d["i"]) - 1, sorted(d["verdict"]), d))
+                elif d.get("open"):
+                    ctx.last_open += 1
+                ctx.last_cover = (ctx.last_cover or set()) | set(d.get("cover", []))
+            elif "i" in d and "why" in d:
                 rej.append((int(d["i"]) - 1, sorted(d["why"]), d))
+            elif "i" in d and "open" in d:
+                ctx.last_open += 1
+            elif "cover" in d:
+                ctx.last_cover = set(d["cover"])
     return rej
 
 
